@@ -17,7 +17,7 @@ RULE = ("Source parameters drawn with boundary weighting (brightness [0,1] incl.
         "forms for g2 and HOM visibility; reductions for perfect and classical settings. Non-trivial = >= 2 "
         "photons and (at least two of the three parameters strictly inside their range, or a lossy circuit with brightness strictly inside (0,1)); distinct = case JSON.")
 ASSUMPTIONS = [
-    "tolerance n_full_states*1e-9*(number of emission configurations) + 1e-9",
+    "tolerance n_patterns*1e-9*(number of emission configurations) + 1e-8",
     "check_number is only required to be >= 1, <= 6^n and 1 for a perfect source",
 ]
 
@@ -97,8 +97,7 @@ def run_source(case):
     smp = emulator.Sampler(c, lw.State(list(vin)), source=src, backend=case["backend"])
     d = call("probability_distribution", lambda: smp.probability_distribution)
     d = {tuple(k): v for k, v in d.items()}
-    n_full = math.comb(U.shape[0] + nph, max(nph, 0))          # up to 2x photons emitted
-    tol = n_full * 1e-9 * max(1, 6 ** min(nph, 3)) + 1e-8
+    tol = max(1, len(ref)) * 1e-9 * max(1, 6 ** min(nph, 3)) + 1e-8   # per pattern and emission configuration
     tot = 0.0
     for k, v in d.items():
         tot += v
